@@ -103,6 +103,8 @@ def run_shard(shard, tier, seed):
 
 
 def replay(case):
+    if case[0] == 'enc':
+        return C.replay_enc(ID, case)
     res = H.Result(ID)
     T, v = case[1], case[2]
     extra = bytes.fromhex(case[4]) if len(case) > 4 else None
